@@ -118,8 +118,10 @@ impl XRefTable {
                 let should_be_updated = match *dst {
                     XRef::Raw { gen_nr: gen, .. } | XRef::Free { gen_nr: gen, .. }
                         => entry.get_gen_nr() > gen,
-                    XRef::Stream { .. } | XRef::Invalid
-                        => true,
+                    // sections are merged newest first: a compressed entry (generation 0) that
+                    // is already there comes from a newer section and wins
+                    XRef::Stream { .. } => false,
+                    XRef::Invalid => true,
                     x => bail!("found {:?}", x)
                 };
                 if should_be_updated {
